@@ -6,8 +6,17 @@ For every generated IR x emitter x option combination:
   file       emit.file(node, tmp, skip_black in {True, False}) writes text that parses back to the same tree;
   behaviour  function: inspect.signature (names, order, kinds, defaults, annotations, **kwargs, return annotation) against
              the IR's own projection; class: __annotations__ order/values and attribute values; argparse: run against a real
-             argparse.ArgumentParser: description and the action table (option strings, order, help, choices, default).
-Failures are classified by finding_class_C06_* (coq/model/C06Spec.v) through the driver."""
+             argparse.ArgumentParser: description and the action table (option strings, order, help, choices, default);
+  run        argparse, for the parameters whose explicit default is data of the declared type: the registered type takes the
+             default written as text and gives it back, the registered default read through the registered type (as argparse
+             does when the option is left out) is the default, parse_args with the required options / with every option given
+             as the text of its own default neither exits nor raises and fills in the defaults (`loads` is json.loads);
+  spec-table inside the Coq guards guard_C06_argparse / guard_C06_class / guard_C06_function_types the really emitted tree is
+             compared with the value-level spec computed from the IR alone by coq/model/C06Values.v (family run_c06values):
+             option string, type, choices, action, help, required, default of every add_argument call; name, annotation and
+             value of every class attribute; well-formedness of the function.
+Failures are classified by finding_class_C06_* (coq/model/C06Spec.v) through the driver; the clause names of `run` and
+`spec-table` are unknown to it, so every failure of theirs is unclassified (a violation)."""
 import argparse
 import ast
 import collections
@@ -27,6 +36,7 @@ from common import Sym, dumps, loads, opt, impl, run_model, unhx, exc_kind
 import astwire
 import irwire
 import gen_ir
+import gen_text as G
 import fam_emitast
 
 ID = "C06"
@@ -35,7 +45,8 @@ FAMILIES = [(fam_emitast, 4000, 40000)]
 TECHNIQUE = ("Coq proof of the emitter's side (argument-list well-formedness, names/order/kinds, every parameter carries a "
              "default node, attribute and option names/order; unbounded in the parameter list) + differential correspondence "
              "of EmitAst.v + CPython as judge (compile, exec, inspect.signature, class __dict__/__annotations__, a real "
-             "ArgumentParser, unparse/re-parse, emit.file with and without black)")
+             "ArgumentParser incl. parse_args on the options' own defaults, unparse/re-parse, emit.file with and without black) + "
+             "inside the value-level guards the emitted tree against the Coq spec table of C06Values.v")
 TRUSTED = [
     "CPython's side (what compile/exec/inspect/argparse do with the emitted tree) is validated by execution, not modelled",
     "to_docstring / emit.docstring results and ast.parse on code strings are inputs of the EmitAst model",
@@ -496,7 +507,8 @@ def ir_data_default(p):
                        (reported shapes: the empty and the one-element sequence; a sequence of two or more under a declared
                        type that mentions List: the option is registered with action='append' and a str default)"""
     if "default" not in p:
-        return None
+        # (prose that itself announces a default: the emitter reads one out of it)
+        return ("out", "prose-announces-default") if "efault" in (p.get("doc") or "") else None
     d = p["default"]
     if d is None or isinstance(d, str) and d in NONE_LIKE:
         v = None
@@ -610,11 +622,47 @@ def argparse_run_checks(ir, ns, parser, by):
 
 
 # ------------------------------------------------------------------ driver
+def table_region_ir(rng):
+    """an IR on which the value-level spec of the class and argparse emitters is defined and (mostly) inside its guard: every
+    parameter declared T / Optional[T] / List[T] over a scalar T or Literal of two or more words, prose that announces no
+    default, no default or a plain default of type T (None under Optional)"""
+    tags = ["stratum:table-region"]
+    params, used = OrderedDict(), set()
+    for _ in range(rng.choice([1, 2, 2, 3, 4, 6])):
+        name = G.ident(rng)
+        while name in used:
+            name = G.ident(rng)
+        used.add(name)
+        shape = rng.choice(["scalar", "scalar", "optional", "optional", "list", "literal"])
+        sc = rng.choice(G.SCALAR_TYPES)
+        words = rng.sample(["np", "tf", "adam", "sgd", "mnist"], rng.randint(2, 3))
+        typ = {"scalar": sc, "optional": "Optional[%s]" % sc, "list": "List[%s]" % sc,
+               "literal": "Literal[%s]" % ", ".join(repr(w) for w in words)}[shape]
+        p = {"doc": G.clean_prose(rng, terminal=rng.choice([".", ".", ",", ""])), "typ": typ}
+        dk = rng.choice(["absent", "value", "value", "value", "none"] if shape == "optional" else ["absent", "value", "value"])
+        if dk == "none":
+            p["default"] = None
+        elif dk == "value":
+            p["default"] = rng.choice(words) if shape == "literal" else fam_emitast.scalar_value_of(rng, sc)
+        if rng.random() < 0.1:
+            del p["doc"]
+        params[name] = p
+        tags += ["typ:" + shape, "default:" + dk]
+    ret = None
+    if rng.random() < 0.2:
+        ret = OrderedDict((("return_type", {"typ": rng.choice(["int", "str", "List[float]"]), "doc": G.clean_prose(rng)}),))
+    doc = "\n".join(G.clean_prose(rng, max_words=7, terminal=rng.choice([".", ""])) for _ in range(rng.choice([1, 1, 2])))
+    return {"name": None, "type": "static", "doc": doc, "params": params, "returns": ret}, tags
+
+
 def gen_cases(rng, n):
     cases = []
     for _ in range(n):
         kind = rng.choice(["function", "class", "argparse"])
-        ir, tags = gen_ir.gen_ir(rng, clean=rng.random() < 0.45)
+        if kind != "function" and rng.random() < 0.3:
+            ir, tags = table_region_ir(rng)
+        else:
+            ir, tags = gen_ir.gen_ir(rng, clean=rng.random() < 0.45)
         spec = {"name": "f", "type": "static", "doc": ir["doc"],
                 "params": OrderedDict((k, dict(v)) for k, v in ir["params"].items()),
                 "returns": None if ir["returns"] is None else OrderedDict((k, dict(v)) for k, v in ir["returns"].items())}
@@ -781,7 +829,9 @@ def oracle(rng, tier):
         "distinct_nontrivial": len(seen),
         "rule": "generated IRs x {function, class, argparse} x option combinations; every clause (validity, tree identity, "
                 "file emission onto a fresh file and, for half the cases, in mode a / wt onto a file in a drawn pre-state, behaviour) "
-                "counted; a third of the IRs carry a token longer than the wrap width in the summary or in prose; non-trivial = distinct (IR, kind) with >= 2 parameters or a return entry "
+                "counted; a third of the IRs carry a token longer than the wrap width in the summary or in prose; strata: a Union / Optional[Union] "
+                "parameter whose default has the type of any member, a back-tick quoted list / tuple / dict display of two or more "
+                "(mixed) elements under a type that admits it, descriptions inside the value-level guards (spec-table clause); non-trivial = distinct (IR, kind) with >= 2 parameters or a return entry "
                 "on which every clause holds",
         "failures": failures,
         "histogram": dict(hist),
